@@ -2,6 +2,7 @@
 mod compare;
 mod driver;
 mod digxml;
+mod e1;
 mod engine;
 mod layout;
 mod model;
